@@ -86,6 +86,16 @@ class Lexer:
             logical _or_ tokens. By default, `or` and `||` are equivalent.
     """
 
+    # Operators that are spelled as a word, so that they look like a function
+    # name when they are followed by a parenthesis.
+    OPERATOR_WORDS = {
+        "and": TOKEN_AND,
+        "or": TOKEN_OR,
+        "not": TOKEN_NOT,
+        "in": TOKEN_IN,
+        "contains": TOKEN_CONTAINS,
+    }
+
     key_pattern = r"[\u0080-\U0010FFFFa-zA-Z_][\u0080-\U0010FFFFa-zA-Z0-9_-]*"
 
     # `not` or !
@@ -121,11 +131,7 @@ class Lexer:
         self.re_pattern = r"/(?P<G_RE>.+?)/(?P<G_RE_FLAGS>[aims]*)"
 
         # func(
-        # An operator spelled as a word and followed by a parenthesis, as in
-        # `not(@.a)`, is not a function call.
-        self.function_pattern = (
-            r"(?!(?:and|or|not|in|contains)\()(?P<G_FUNC>[a-z][a-z_0-9]+)\(\s*"
-        )
+        self.function_pattern = r"(?P<G_FUNC>[a-z][a-z_0-9]+)\(\s*"
 
         self.rules = self.compile_rules()
 
@@ -287,11 +293,29 @@ class Lexer:
                     index=match.start(),
                 )
             elif kind == TOKEN_FUNCTION:
-                yield _token(
-                    kind=TOKEN_FUNCTION,
-                    value=match.group("G_FUNC"),
-                    index=match.start("G_FUNC"),
-                )
+                name = match.group("G_FUNC")
+                if (
+                    name in self.OPERATOR_WORDS
+                    and name not in self.env.function_extensions
+                ):
+                    # An operator spelled as a word and followed by a parenthesis,
+                    # as in `not(@.a)`, is not a function call.
+                    yield _token(
+                        kind=self.OPERATOR_WORDS[name],
+                        value=name,
+                        index=match.start("G_FUNC"),
+                    )
+                    yield _token(
+                        kind=TOKEN_LPAREN,
+                        value="(",
+                        index=match.end("G_FUNC"),
+                    )
+                else:
+                    yield _token(
+                        kind=TOKEN_FUNCTION,
+                        value=name,
+                        index=match.start("G_FUNC"),
+                    )
             elif kind == TOKEN_SKIP:
                 continue
             elif kind == TOKEN_ILLEGAL:
